@@ -98,12 +98,14 @@ OPTS = ("hdr", "ptype", "stream", "nsync", "tilde", "memsplit", "again", "blk", 
 
 def dress(text, enc, flags, header):
     """rewrites the site-table line of a metagen text: draw flags per entry, another header"""
-    key = "snsShankMap" if enc == "shank" else "snsGeomMap"
+    keys = {"shank": ["snsShankMap"], "geom": ["snsGeomMap"], "both": ["snsShankMap", "snsGeomMap"]}[enc]
+    headers = header if isinstance(header, (list, tuple)) else [header] * len(keys)
     lines = text.split("\n")
     hit = 0
     for i, line in enumerate(lines):
-        m = re.match(rf"^(~?{key}=)\(([^)]*)\)(.*)$", line)
+        m = re.match(rf"^(~?(?:{'|'.join(keys)})=)\(([^)]*)\)(.*)$", line)
         if m:
+            header = headers[keys.index(m.group(1).lstrip("~").rstrip("="))]
             ents = re.findall(r"\(([0-9:]+)\)", m.group(3))
             if flags is not None:
                 if len(ents) != len(flags):
@@ -111,7 +113,7 @@ def dress(text, enc, flags, header):
                 ents = [e.rsplit(":", 1)[0] + f":{int(f)}" for e, f in zip(ents, flags)]
             lines[i] = f"{m.group(1)}({header or m.group(2)})" + "".join(f"({e})" for e in ents)
             hit += 1
-    if hit != 1:
+    if hit != len(keys):
         raise tlc.TLCError(f"dress: {hit} site-table lines in the metadata text")
     return "\n".join(lines)
 
@@ -141,7 +143,8 @@ def record(job):
     d.mkdir(parents=True, exist_ok=True)
     rec = {"gen": gen, "kind": kind, "sites": [list(s) for s in sites], "entries": {}, "obs": [], "dense": job.get("dense", 0),
            "exc": "", "opts": json.dumps({k: job[k] for k in OPTS if k in job})}
-    encs = ["shank"] if gen == "NPU" else ["shank", "geom"]
+    # "both": metadata that carries the two encodings of the same table (seed round g: the shank map's tuples read as x / y)
+    encs = ["shank"] if gen == "NPU" else ["shank", "geom", "both"]
     stream = job.get("stream", "ap")
     f = d / f"g{job['id']}.{stream}.meta"
     junk = [f]
@@ -162,7 +165,8 @@ def record(job):
             for split in [-1] + list(job.get("splits", [])):
                 extra = dict(more, **({"NP2.4_shank": split} if split >= 0 else {}))
                 text, _ = metagen.make_meta(kind, sites3, encoding=enc, extra=extra or None, **mk)
-                text = dress(text, enc, flags, REAL_HEADER[hkey] if job.get("hdr") else None)
+                text = dress(text, enc, flags, None if not job.get("hdr") else REAL_HEADER[hkey] if enc != "both" else
+                             [REAL_HEADER[(hkey[0], e)] for e in ("shank", "geom")])
                 if split == -1:
                     rec["entries"].update(parse_entries(text))
                 f.write_text(text)
